@@ -84,10 +84,26 @@ def contract_workload(res, ctx):
                 if i == 0:
                     r[0] |= 1  # first record of a v2 file: non-zero first byte (see DESIGN.md, finding F02)
                 recs.append(bytes(r))
+            # the header's own fields (is_64bit, tick, filler) must not leak into the decoding of a record
             data = wire.v2_file([(rng.getrandbits(64), rng.getrandbits(32), b'p%d' % rng.randrange(100))
-                                 for _ in range(rng.randrange(0, 4))], rng.choice((0, 8, 64, 100)), recs)
+                                 for _ in range(rng.randrange(0, 4))], rng.choice((0, 8, 64, 100)), recs,
+                                hdr_fill=rng.choice((b'\x00', b'\xff', rng.randbytes(9))),
+                                is_64bit=rng.choice((0, 1, 2, 0xffffffff)), tick=rng.getrandbits(48))
             try:
-                n = sum(1 for _ in KdBufParser({}, {}).parse(io.BytesIO(data)))
+                got = [wire.event_tuple(e) for e in KdBufParser({}, {}).parse(io.BytesIO(data))]
+                n = len(got)
+                if got != [wire.ref_tuple(r) for r in recs]:
+                    k = next((i for i, (a, b) in enumerate(zip(got, [wire.ref_tuple(r) for r in recs])) if a != b), 0)
+                    res.violation('c01-via-container', f'record {k} read through a v2 file decodes differently from the '
+                                  f'reference ({recs[k].hex() if k < len(recs) else "-"})', {'file': data})
+                # the same records through a v3 file
+                from vlib import gen as _gen
+                f3 = wire.V3Spec(chunks=[recs[:len(recs) // 2], recs[len(recs) // 2:]]).build()
+                got3 = [wire.event_tuple(e) for e in KdBufParser({}, {}).parse(io.BytesIO(f3)) if hasattr(e, 'debugid')]
+                if got3 != [wire.ref_tuple(r) for r in recs]:
+                    res.violation('c01-via-container-v3', 'records read through a v3 file decode differently from the '
+                                  'reference', {'file': f3})
+                n += len(got3)
             except Exception as e:
                 res.violation(f'c01-container-raises-{core.exc_name(e)}', f'parse of a generated v2 file raised {e!r}',
                               {'file': data})
